@@ -446,6 +446,7 @@ rt_plain!(
     wt::variations::ItemVariationStore,
     wt::gsub::SubstitutionLookup,
     wt::gpos::PositionLookup,
+    wt::sbix::GlyphData,
 );
 
 fn variant_name<T: Debug>(v: &T) -> String {
@@ -1532,15 +1533,15 @@ fn b_gasp(t: &mut Tape) -> wt::gasp::Gasp {
 
 fn b_meta(t: &mut Tape) -> wt::meta::Meta {
     use wt::meta::*;
-    let n = t.len(4);
+    let n = t.len(6);
     let maps = (0..n)
         .map(|_| {
             if t.bool() {
                 let tag = if t.bool() { DLNG } else { SLNG };
-                let k = 1 + t.len(3);
+                let k = 1 + t.len(5);
                 let tags = (0..k)
                     .map(|_| {
-                        let l = 1 + t.below(6);
+                        let l = 1 + t.below(12);
                         ScriptLangTag::new((0..l).map(|_| b"abcxyzLATN-019"[t.below(14) as usize] as char).collect()).unwrap()
                     })
                     .collect();
@@ -2124,6 +2125,12 @@ fn b_condition(t: &mut Tape, depth: u32) -> wt::layout::Condition {
 }
 
 fn b_feature_variations(t: &mut Tape) -> wt::layout::FeatureVariations {
+    b_feature_variations_with(t, false)
+}
+
+/// `alt_params`: alternate features carry FeatureParams (listed finding: read back without, the reader resolves them
+/// with the placeholder feature tag `NULL`). Known stage only.
+fn b_feature_variations_with(t: &mut Tape, alt_params: bool) -> wt::layout::FeatureVariations {
     use wt::layout::*;
     let n = t.len(3);
     FeatureVariations {
@@ -2133,18 +2140,18 @@ fn b_feature_variations(t: &mut Tape) -> wt::layout::FeatureVariations {
                 feature_table_substitution: if t.chance(1, 4) {
                     nullable(None)
                 } else {
-                    nullable(Some(FeatureTableSubstitution { substitutions: (0..t.len(3)).map(|_| FeatureTableSubstitutionRecord { feature_index: t.u16(), alternate_feature: OffsetMarker::new(b_feature(t, false)) }).collect() }))
+                    nullable(Some(FeatureTableSubstitution { substitutions: (0..t.len(3)).map(|_| FeatureTableSubstitutionRecord { feature_index: t.u16(), alternate_feature: OffsetMarker::new(b_feature(t, alt_params)) }).collect() }))
                 },
             })
             .collect(),
     }
 }
 
-fn b_gsub(t: &mut Tape) -> wt::gsub::Gsub {
+fn b_gsub(t: &mut Tape, alt_params: bool) -> wt::gsub::Gsub {
     let lookups = (0..t.len(3)).map(|_| OffsetMarker::new(b_gsub_lookup(t))).collect();
-    let fv = if t.chance(1, 3) {
+    let fv = if alt_params || t.chance(1, 3) {
         t.lab_nd("v1.1");
-        Some(b_feature_variations(t))
+        Some(b_feature_variations_with(t, alt_params))
     } else {
         None
     };
@@ -2524,6 +2531,325 @@ fn b_base(t: &mut Tape) -> wt::base::Base {
     wt::base::Base { horiz_axis: nullable(h), vert_axis: nullable(v), item_var_store: nullable(ivs) }
 }
 
+// ---- gvar ---------------------------------------------------------------------------------------
+// write-fonts has no owned read-back type for gvar: the value written is the builder input (per glyph: tuples of tents
+// and per-point deltas with required flags); the compiled table is read with read-fonts and every tuple's peak,
+// intermediate region, point set and deltas are compared with the input. The re-dump is the table rebuilt from what
+// was read back.
+
+#[derive(Clone, Debug, PartialEq)]
+struct MTuple {
+    /// (min, peak, max) per axis, F2Dot14 bits
+    tents: Vec<(i16, i16, i16)>,
+    /// (x, y, required) per point
+    deltas: Vec<(i16, i16, bool)>,
+}
+
+const STRADDLE: &[usize] = &[62, 63, 64, 65, 66, 126, 127, 128, 129, 130, 254, 255, 256, 257, 258];
+
+fn b_gvar_model(t: &mut Tape) -> (u16, Vec<Vec<MTuple>>) {
+    let axes = 1 + t.below(3) as usize;
+    // a small pool of tents so that peaks are shared between glyphs (shared tuples) and within them
+    let npool = 1 + t.below(4) as usize;
+    let pool: Vec<Vec<(i16, i16, i16)>> = (0..npool)
+        .map(|_| {
+            (0..axes)
+                .map(|_| {
+                    let peak = match t.below(5) {
+                        0 => 0x4000,
+                        1 => -0x4000,
+                        2 => 0,
+                        _ => (t.below(0x8001) as i32 - 0x4000) as i16,
+                    };
+                    if t.chance(1, 3) {
+                        // explicit intermediate region
+                        let lo = (t.below(0x8001) as i32 - 0x4000) as i16;
+                        let hi = (t.below(0x8001) as i32 - 0x4000) as i16;
+                        (lo.min(peak), peak, hi.max(peak))
+                    } else {
+                        (peak.min(0), peak, peak.max(0))
+                    }
+                })
+                .collect()
+        })
+        .collect();
+    let nglyphs = t.len(3);
+    let glyphs = (0..nglyphs)
+        .map(|_| {
+            let ntuples = t.len(3);
+            // number of required (explicit) points of the glyph's point sets, then the total
+            let r_of = |t: &mut Tape| match t.below(4) {
+                0 => t.below(6) as usize,
+                _ => STRADDLE[t.below(STRADDLE.len() as u32) as usize],
+            };
+            let r0 = r_of(t);
+            let n = match t.below(5) {
+                0 => r0,
+                1 => r0 + 1 + t.below(4) as usize,
+                2 => r0 * 2 + t.below(20) as usize,
+                _ => r0 * 3 + 40 + t.below(60) as usize,
+            };
+            // two candidate point sets (shared point numbers need the same set in >= 2 tuples)
+            let mk_set = |t: &mut Tape, r: usize| -> Vec<bool> {
+                let r = r.min(n);
+                let mut req = vec![false; n];
+                match t.below(3) {
+                    0 => req.iter_mut().take(r).for_each(|x| *x = true), // leading block
+                    1 => {
+                        // evenly spread (gaps > 255 need word-sized point runs)
+                        for k in 0..r {
+                            req[k * n / r.max(1)] = true;
+                        }
+                    }
+                    _ => req.iter_mut().rev().take(r).for_each(|x| *x = true), // trailing block
+                }
+                req
+            };
+            let set_a = mk_set(t, r0);
+            let rb = r_of(t);
+            let set_b = mk_set(t, rb);
+            (0..ntuples)
+                .map(|_| {
+                    let tents = pool[t.below(npool as u32) as usize].clone();
+                    let req = match t.below(4) {
+                        0 => vec![true; n],
+                        1 => set_b.clone(),
+                        _ => set_a.clone(),
+                    };
+                    // run-structured delta values: zero / byte / word runs with lengths straddling 63/64/65
+                    let mut vals: Vec<(i16, i16)> = Vec::with_capacity(n);
+                    while vals.len() < n {
+                        let len = match t.below(3) {
+                            0 => 1 + t.below(4) as usize,
+                            _ => STRADDLE[t.below(5) as usize], // 62..66
+                        };
+                        let kind = (t.below(3), t.below(3));
+                        for _ in 0..len.min(n - vals.len()) {
+                            let v = |k: u32, t: &mut Tape| match k {
+                                0 => 0i16,
+                                1 => (t.below(255) as i32 - 127) as i16,
+                                _ => {
+                                    let w = t.i16();
+                                    if (-128..=127).contains(&w) {
+                                        w.wrapping_add(300)
+                                    } else {
+                                        w
+                                    }
+                                }
+                            };
+                            vals.push((v(kind.0, t), v(kind.1, t)));
+                        }
+                    }
+                    MTuple { tents, deltas: vals.into_iter().zip(req).map(|((x, y), r)| (x, y, r)).collect() }
+                })
+                .collect()
+        })
+        .collect();
+    (axes as u16, glyphs)
+}
+
+fn build_gvar(axes: u16, glyphs: &[Vec<MTuple>]) -> Result<wt::gvar::Gvar, String> {
+    use read_fonts::types::GlyphId;
+    use wt::gvar::*;
+    let vars = glyphs
+        .iter()
+        .enumerate()
+        .map(|(g, tuples)| {
+            GlyphVariations::new(
+                GlyphId::new(g as u32),
+                tuples
+                    .iter()
+                    .map(|m| {
+                        GlyphDeltas::new(
+                            m.tents.iter().map(|(lo, pk, hi)| Tent::new(F2Dot14::from_bits(*pk), Some((F2Dot14::from_bits(*lo), F2Dot14::from_bits(*hi))))).collect(),
+                            m.deltas.iter().map(|(x, y, r)| GlyphDelta::new(*x, *y, *r)).collect(),
+                        )
+                    })
+                    .collect(),
+            )
+        })
+        .collect();
+    Gvar::new(vars, axes).map_err(|e| format!("{e:?}"))
+}
+
+fn test_gvar(t: &mut Tape, stats: &Stats) -> CaseResult {
+    use read_fonts::types::GlyphId;
+    let (axes, model) = b_gvar_model(t);
+    stats.class("gen:gvar");
+    let gv = match build_gvar(axes, &model) {
+        Ok(g) => g,
+        Err(_) => {
+            stats.class("s1:gvar:invalid");
+            return Ok(());
+        }
+    };
+    if gv.validate().is_err() {
+        stats.class("s1:gvar:invalid");
+        return Ok(());
+    }
+    let b = match guarded(|| dump_table(&gv)) {
+        Err(p) => return Err(fail(format!("c04|dump-panic|gvar|{}", panic_site(&p)), format!("dump_table panicked on a valid gvar: {}", p.msg))),
+        Ok(Err(_)) => {
+            stats.class("s1:gvar:dump_err");
+            return Ok(());
+        }
+        Ok(Ok(b)) => b,
+    };
+    let bad = |what: &str, msg: String| fail(format!("c04|roundtrip|gvar|{what}"), format!("gvar: {msg}"));
+    let rd = guarded(|| read_fonts::tables::gvar::Gvar::read(FontData::new(&b)))
+        .map_err(|p| fail(format!("c04|reread-panic|gvar|{}", panic_site(&p)), p.msg.clone()))?
+        .map_err(|e| fail("c04|reread-err|gvar".into(), format!("compiled gvar ({} bytes) does not read back: {e}", b.len())))?;
+    if rd.axis_count() != axes || rd.glyph_count() as usize != model.len() {
+        return Err(bad("header", format!("axis_count {} / glyph_count {} read back, {axes} / {} written", rd.axis_count(), rd.glyph_count(), model.len())));
+    }
+    let mut readback = model.clone();
+    for (g, tuples) in model.iter().enumerate() {
+        let at = |ti: usize| format!("glyph {g} tuple {ti}");
+        let vd = guarded(|| rd.glyph_variation_data(GlyphId::new(g as u32)))
+            .map_err(|p| fail(format!("c04|reread-panic|gvar|{}", panic_site(&p)), p.msg.clone()))?
+            .map_err(|e| fail("c04|reread-err|gvar".into(), format!("glyph_variation_data({g}): {e}")))?;
+        let rt: Vec<_> = vd.as_ref().map(|v| v.tuples().take(5000).collect()).unwrap_or_default();
+        if rt.len() != tuples.len() {
+            return Err(bad("tuple-count", format!("glyph {g}: {} tuples written, {} read back", tuples.len(), rt.len())));
+        }
+        for (ti, (m, r)) in tuples.iter().zip(&rt).enumerate() {
+            let bits = |tu: &read_fonts::tables::variations::Tuple| -> Vec<i16> { tu.values.iter().map(|v| v.get().to_bits()).collect() };
+            let peak: Vec<i16> = m.tents.iter().map(|x| x.1).collect();
+            if bits(&r.peak()) != peak {
+                return Err(bad("peak", format!("{}: peak {:?} written, {:?} read back", at(ti), peak, bits(&r.peak()))));
+            }
+            let needs = m.tents.iter().any(|(lo, pk, hi)| (*lo, *hi) != ((*pk).min(0), (*pk).max(0)));
+            let inter = match (r.intermediate_start(), r.intermediate_end()) {
+                (Some(a), Some(b)) => Some((bits(&a), bits(&b))),
+                (None, None) => None,
+                _ => return Err(bad("intermediate", format!("{}: only one intermediate tuple read back", at(ti)))),
+            };
+            let want = needs.then(|| (m.tents.iter().map(|x| x.0).collect::<Vec<_>>(), m.tents.iter().map(|x| x.2).collect::<Vec<_>>()));
+            if inter != want {
+                return Err(bad("intermediate", format!("{}: intermediate region {want:?} written, {inter:?} read back", at(ti))));
+            }
+            if needs {
+                stats.class("gen:gvar:intermediate");
+            }
+            let n = m.deltas.len();
+            let got: Vec<(u16, i32, i32)> = r.deltas().take(n + 8).map(|d| (d.position, d.x_delta, d.y_delta)).collect();
+            let required: Vec<usize> = (0..n).filter(|i| m.deltas[*i].2).collect();
+            let all = r.has_deltas_for_all_points();
+            // the writer may encode all points (then every delta is written) or exactly the required points
+            let positions: Vec<usize> = if all { (0..n).collect() } else { required.clone() };
+            if !all && (required.is_empty() || required.len() == n) {
+                return Err(bad("points", format!("{}: explicit point numbers read back although {} of {n} points are required", at(ti), required.len())));
+            }
+            if !all {
+                let pts: Vec<usize> = r.point_numbers().take(n + 8).map(|p| p as usize).collect();
+                if pts != required {
+                    let k = pts.iter().zip(&required).position(|(a, b)| a != b);
+                    return Err(bad("points", format!("{}: {} point numbers written, {} read back (first difference at index {k:?})", at(ti), required.len(), pts.len())));
+                }
+                stats.class(match required.len() {
+                    0..=126 => "gen:gvar:explicit-points<127",
+                    127..=129 => "gen:gvar:explicit-points=127..129",
+                    130..=254 => "gen:gvar:explicit-points=130..254",
+                    255..=257 => "gen:gvar:explicit-points=255..257",
+                    _ => "gen:gvar:explicit-points>257",
+                });
+                if required.len() == 128 {
+                    stats.class("gen:gvar:explicit-points=128");
+                }
+            } else {
+                stats.class("gen:gvar:all-points");
+            }
+            let want: Vec<(u16, i32, i32)> = positions.iter().map(|p| (*p as u16, m.deltas[*p].0 as i32, m.deltas[*p].1 as i32)).collect();
+            if got != want {
+                let k = got.iter().zip(&want).position(|(a, b)| a != b);
+                return Err(bad(
+                    "deltas",
+                    format!("{}: {} deltas written ({} points, all-points {all}), {} read back; first difference at {k:?}: written {:?}, read back {:?}", at(ti), want.len(), n, got.len(), k.and_then(|k| want.get(k)), k.and_then(|k| got.get(k))),
+                ));
+            }
+            for (p, x, y) in &got {
+                let d = &mut readback[g][ti].deltas[*p as usize];
+                d.0 = *x as i16;
+                d.1 = *y as i16;
+            }
+        }
+        if vd.as_ref().map(|v| v.tuples().count()).unwrap_or(0) >= 2 && tuples.len() >= 2 {
+            stats.class("gen:gvar:multi-tuple");
+        }
+    }
+    // re-dump: the table rebuilt from what was read back compiles to the same bytes
+    let b2 = build_gvar(axes, &readback).ok().and_then(|g| guarded(|| dump_table(&g)).ok().and_then(|r| r.ok()));
+    if b2.as_deref() != Some(&b[..]) {
+        return Err(fail("c04|redump-bytes|gvar".into(), "gvar rebuilt from the values read back compiles to different bytes".into()));
+    }
+    if rd.shared_tuple_count() > 0 {
+        stats.class("gen:gvar:shared-tuples");
+    }
+    stats.class("s1:gen_ok");
+    if model.iter().any(|g| !g.is_empty()) {
+        stats.nontrivial(fnv64(&b));
+    } else {
+        stats.class("gen:trivial");
+    }
+    Ok(())
+}
+
+// ---- sbix ---------------------------------------------------------------------------------------
+
+/// Flags always contain ALWAYS_SET (the specification requires bit 0 and the writer computes it); both settings of
+/// DRAW_OUTLINES.
+fn b_sbix(t: &mut Tape) -> wt::sbix::Sbix {
+    use wt::sbix::*;
+    let bits = 1 | ((t.bool() as u16) << 1);
+    t.lab(if bits == 3 { "draw-outlines" } else { "flags=1" });
+    let ng = t.len_big(6, 300);
+    let ns = t.len(3);
+    let strikes = (0..ns)
+        .map(|_| {
+            // offsets are raw numbers in the owned type: increasing, equal neighbours = empty glyph
+            let mut cur = 4 * (ng as u32 + 1) + 4;
+            let offs = (0..=ng)
+                .map(|_| {
+                    let o = cur;
+                    cur += if t.bool() { 0 } else { 8 + t.below(40) };
+                    o
+                })
+                .collect();
+            Strike::new(t.u16(), t.u16(), offs)
+        })
+        .collect();
+    Sbix::new(HeaderFlags::from_bits_truncate(bits), strikes)
+}
+
+fn b_sbix_glyph(t: &mut Tape) -> wt::sbix::GlyphData {
+    let tag = [b"png ", b"jpg ", b"tiff", b"dupe", b"flip", b"pdf "][t.below(6) as usize];
+    t.lab(std::str::from_utf8(tag).unwrap().trim());
+    let n = if tag == b"dupe" { 2 } else { t.len_big(12, 600) };
+    wt::sbix::GlyphData::new(t.i16(), t.i16(), Tag::new(tag), t.bytes(n))
+}
+
+// ---- meta: indexed access to script/lang tags ----------------------------------------------------
+
+/// Indexed access: `VarLenArray<ScriptLangTag>::get(i)` on the compiled table returns the i-th written tag.
+fn check_meta_get(v: &wt::meta::Meta, stats: &Stats) -> CaseResult {
+    if v.validate().is_err() {
+        return Ok(());
+    }
+    let Ok(Ok(b)) = guarded(|| dump_table(v)) else { return Ok(()) };
+    let Ok(rd) = read_fonts::tables::meta::Meta::read(FontData::new(&b)) else { return Ok(()) };
+    stats.class("gen:meta-get");
+    for (rec, w) in rd.data_maps().iter().zip(&v.data_maps) {
+        let (Ok(read_fonts::tables::meta::Metadata::ScriptLangTags(arr)), wt::meta::Metadata::ScriptLangTags(tags)) = (rec.data(rd.offset_data()), w.data.as_ref()) else { continue };
+        for (i, tag) in tags.iter().enumerate() {
+            let got = guarded(|| arr.get(i).and_then(|r| r.ok()).map(|s| s.as_str().to_string())).unwrap_or(None);
+            if got.as_deref() != Some(tag.as_str()) {
+                return Err(fail("c04|roundtrip|meta|script-lang-tag-get".into(), format!("meta {}: tag {i} of {:?} written as {:?}, VarLenArray::get({i}) reads {got:?}", rec.tag(), tags.iter().map(|t| t.as_str()).collect::<Vec<_>>(), tag.as_str())));
+            }
+        }
+    }
+    Ok(())
+}
+
 // ---- dispatcher ---------------------------------------------------------------------------------
 
 /// (kind, weight, known-defect stage only)
@@ -2559,6 +2885,9 @@ const GEN_KINDS: &[(&str, u32)] = &[
     ("GPOS", 4),
     ("cmap", 6),
     ("BASE", 3),
+    ("gvar", 8),
+    ("sbix", 2),
+    ("sbix-GlyphData", 1),
 ];
 
 fn gen_strategy(kinds: Vec<(&'static str, u32)>) -> impl Strategy<Value = GenCase> {
@@ -2623,7 +2952,11 @@ fn test_gen(c: &GenCase, stats: &Stats, known_stage: bool) -> CaseResult {
         "vhea" => run_gen("vhea", &b_vhea(t), t, stats),
         "maxp" => run_gen("maxp", &b_maxp(t), t, stats),
         "gasp" => run_gen("gasp", &b_gasp(t), t, stats),
-        "meta" => run_gen("meta", &b_meta(t), t, stats),
+        "meta" => {
+            let v = b_meta(t);
+            run_gen("meta", &v, t, stats)?;
+            check_meta_get(&v, stats)
+        }
         "COLR" => run_gen("COLR", &b_colr(t), t, stats),
         "GDEF" => run_gen("GDEF", &b_gdef(t), t, stats),
         "MVAR" => run_gen("MVAR", &b_mvar(t), t, stats),
@@ -2655,7 +2988,12 @@ fn test_gen(c: &GenCase, stats: &Stats, known_stage: bool) -> CaseResult {
         "FeatureVariations" => run_gen("FeatureVariations", &b_feature_variations(t), t, stats),
         "GSUB-lookup" => run_gen("GSUB-lookup", &b_gsub_lookup(t), t, stats),
         "GPOS-lookup" => run_gen("GPOS-lookup", &b_gpos_lookup(t), t, stats),
-        "GSUB" => run_gen("GSUB", &b_gsub(t), t, stats),
+        "GSUB" => run_gen("GSUB", &b_gsub(t, false), t, stats),
+        "GSUB-alt-feature-params" => run_gen("GSUB", &b_gsub(t, true), t, stats),
+        "FeatureVariations-alt-feature-params" => run_gen("FeatureVariations", &b_feature_variations_with(t, true), t, stats),
+        "gvar" => test_gvar(t, stats),
+        "sbix" => run_gen("sbix", &b_sbix(t), t, stats),
+        "sbix-GlyphData" => run_gen("sbix-GlyphData", &b_sbix_glyph(t), t, stats),
         "GPOS" => run_gen("GPOS", &b_gpos(t), t, stats),
         "cmap" => run_gen("cmap", &b_cmap(t), t, stats),
         "BASE" => run_gen("BASE", &b_base(t), t, stats),
@@ -2669,12 +3007,12 @@ fn main() {
     let ctx = Ctx::from_args("C04");
     ctx.set_rule(
         "S1(a): every writable top-level table (25 tags) of every corpus font, unmutated. S1(b): a proptest tape (0..480 u32 words, 1/12 zero, 1/12 max) drives hand builders for 31 table/subtable kinds \
-         (avar v1/v2, fvar with/without instances and postscript ids, STAT with value formats 1-4, name v0/v1, post 1/2/2.5/3, OS/2 v0/1/4/5, head, hhea, vhea, maxp 0.5/1.0, gasp, meta, CPAL v0/v1, COLR v0/v1 with all 32 paint \
+         (avar v1/v2, fvar with/without instances and postscript ids, STAT with value formats 1-4, name v0/v1, post 1/2/2.5/3, OS/2 v0/1/4/5, head, hhea, vhea, maxp 0.5/1.0, gasp, meta (incl. indexed access to script/lang tags), CPAL v0/v1, COLR v0/v1 with all 32 paint \
          formats, GDEF 1.0/1.2/1.3, MVAR/HVAR/VVAR, DeltaSetIndexMap f0/f1, ItemVariationStore short/long words, coverage/class/device formats, feature variations with all 5 condition formats, every GSUB and GPOS \
-         lookup type incl. extension, whole GSUB/GPOS tables, cmap subtables 0/4/6/10/12/13/14, BASE, hmtx); count fields always derived from the arrays, nullable offsets generated both ways, array lengths \
+         lookup type incl. extension, whole GSUB/GPOS tables, cmap subtables 0/4/6/10/12/13/14, BASE, hmtx, sbix header/strikes and GlyphData incl. dupe/flip, gvar through the GlyphVariations builder input: shared/private point sets with 0..258 explicit points straddling 127/128/129 and 255/256/257, zero/byte/word delta runs straddling 63/64/65, intermediate regions, shared peaks - compared per tuple via read-fonts); count fields always derived from the arrays, nullable offsets generated both ways, array lengths \
          0/1/2-4/uniform with 1/24 large. S2: corpus tables (<= 48 KiB) under a strided field sweep (first 128 bytes) and havoc (1-6 edits), kept when they parse and validate. \
          Non-trivial: S1 - the value reaches >= 1 subtable through an offset or carries a non-default version/format discriminant; S2 - the mutated table parsed, validated and reached the idempotence comparison. \
-         Distinct by hash of the compiled bytes B. Stages regress-corpus/regress-gen re-check the subjects of two repaired defects (avar v2, CPAL v1); stage known-gen only reproduces the listed findings (zero-sized records, fvar postscript id 0xFFFF), which the other stages exclude by construction.",
+         Distinct by hash of the compiled bytes B. Stages regress-corpus/regress-gen re-check the subjects of two repaired defects (avar v2, CPAL v1); stage known-gen only reproduces the listed findings (zero-sized records, fvar postscript id 0xFFFF, FeatureParams of alternate features), which the other stages exclude by construction.",
     );
     ctx.assume("read arguments of hmtx/vmtx/sbix are derived from the written value (h_metrics/bearings lengths, strike offsets)");
     ctx.assume("GSUB/GPOS values whose compilation promoted lookups to extension or split subtables are counted (`repacked`) and left to C05/C16");
@@ -2704,6 +3042,6 @@ fn main() {
     ctx.index_stage("regress-corpus", Isolation::Threads, cc.len() as u64, |i| cc[i as usize].clone(), |c, s| test_corpus(&cx, c, s, true));
     ctx.prop_stage("regress-gen", Isolation::Threads, ctx.n(2_000, 20_000), || gen_strategy(vec![("avar-v2", 1), ("CPAL-v1", 1)]), |c, s| test_gen(c, s, false));
     // small stage that keeps reproducing the two listed defects (excluded by construction from the stages above)
-    ctx.prop_stage("known-gen", Isolation::Threads, ctx.n(400, 2_000), || gen_strategy(vec![("IVS-zero-axes", 1), ("fvar", 1)]), |c, s| test_gen(c, s, true));
+    ctx.prop_stage("known-gen", Isolation::Threads, ctx.n(1_200, 6_000), || gen_strategy(vec![("IVS-zero-axes", 1), ("fvar", 1), ("FeatureVariations-alt-feature-params", 1), ("GSUB-alt-feature-params", 1)]), |c, s| test_gen(c, s, true));
     ctx.finish();
 }
